@@ -18,6 +18,14 @@ struct GEvent {
     message: String,
     task: String,
     level: String,
+    /// appended to the unique marker in OperationId
+    #[serde(default)]
+    op: String,
+    /// Version / TimeStamp of the stored event (empty = the usual "9.9.9" / "2026-01-01T00:00:00.000")
+    #[serde(default)]
+    version: String,
+    #[serde(default)]
+    stamp: String,
 }
 
 #[derive(Clone, Debug, Serialize, Deserialize, Hash)]
@@ -58,7 +66,10 @@ fn message() -> impl Strategy<Value = String> {
 }
 
 fn gevent() -> impl Strategy<Value = GEvent> {
-    (message(), prop::sample::select(vec!["start", "log_connection_summary", "t<a>sk", "poll & wait"]), prop::sample::select(vec!["INFO", "WARN", "ERROR"])).prop_map(|(message, task, level)| GEvent { message, task: task.to_string(), level: level.to_string() })
+    // every text field of a stored event is somebody's text: module names, versions, time stamps and levels come from the file
+    let small = || prop_oneof![5 => Just(String::new()), 2 => prop::sample::select(HOSTILE.to_vec()).prop_map(|s| s.to_string()), 1 => prop::collection::vec(prop::sample::select(HOSTILE.to_vec()), 2..4).prop_map(|v| v.concat())];
+    (message(), prop::sample::select(vec!["start", "log_connection_summary", "t<a>sk", "poll & wait"]), prop::sample::select(vec!["INFO", "WARN", "ERROR", "I<N>FO", "]]>"]), small(), small(), small())
+        .prop_map(|(message, task, level, op, version, stamp)| GEvent { message, task: task.to_string(), level: level.to_string(), op, version, stamp })
 }
 
 fn strategy() -> impl Strategy<Value = Case> {
@@ -75,7 +86,7 @@ fn strategy() -> impl Strategy<Value = Case> {
     ], prop::option::weighted(0.3, (-2i8..=2, 1u8..=5))).prop_map(|(files, faults, exact)| Case { files, faults, exact })
 }
 
-const RULE: &str = "generator: 0-4 event files x 0-13 events; message text = any Unicode scalar values except controls, drawn heavily from markup (< > & ' \" ]]> <![CDATA[ &amp; </Event> <Param .../>), non-BMP characters and long runs sized so that batch totals land around 64 KiB and single events land just under / over 64 KiB once wrapped; every event carries a unique marker in OperationId; the telemetry endpoint answers the successive POSTs by a generated pattern (accept / 5xx,4xx / connection reset / accept late; one case in six: 0-3 accepted POSTs followed by 5-7 refusals in a row, i.e. a batch that is given up). The real EventReader runs on a paused-clock runtime against a raw mock that also serves goal state, shared config and instance info. oracle: every POST body is < 65536 bytes and parses with xml-rs as TelemetryData/Provider/Event*; each event's character data parsed again as a fragment is a list of Param elements whose Context1 / Context3 / TaskName values decode to exactly the original strings; over all ACCEPTED POSTs no marker occurs twice and all POSTs containing a marker are byte-identical (re-sends of one batch); an event that cannot fit alone appears in no POST; every other event is posted and, unless the host refused all five attempts of its batch, accepted; the run ends and every consumed .json file is gone. non-trivial: a batch boundary was crossed, or an oversize event or a failure pattern is present, or a message contains markup; distinct by hash of the case.";
+const RULE: &str = "generator: 0-4 event files x 0-13 events; message text = any Unicode scalar values except controls, drawn heavily from markup (< > & ' \" ]]> <![CDATA[ &amp; </Event> <Param .../>), non-BMP characters and long runs sized so that batch totals land around 64 KiB and single events land just under / over 64 KiB once wrapped; every event carries a unique marker in OperationId, followed in a third of the events by markup; Version, TimeStamp and EventLevel of the stored event carry markup as well in a third of the events each; the telemetry endpoint answers the successive POSTs by a generated pattern (accept / 5xx,4xx / connection reset / accept late; one case in six: 0-3 accepted POSTs followed by 5-7 refusals in a row, i.e. a batch that is given up). The real EventReader runs on a paused-clock runtime against a raw mock that also serves goal state, shared config and instance info. oracle: every POST body is < 65536 bytes and parses with xml-rs as TelemetryData/Provider/Event*; each event's character data parsed again as a fragment is a list of Param elements whose Context1 / Context2 / Context3 / TaskName / GAVersion / OpcodeName / CapabilityUsed values decode to exactly the original strings; over all ACCEPTED POSTs no marker occurs twice and all POSTs containing a marker are byte-identical (re-sends of one batch); an event that cannot fit alone appears in no POST; every other event is posted and, unless the host refused all five attempts of its batch, accepted; the run ends and every consumed .json file is gone. non-trivial: a batch boundary was crossed, or an oversize event or a failure pattern is present, or a message contains markup; distinct by hash of the case.";
 
 struct HostState {
     faults: VecDeque<Option<PostFault>>,
@@ -175,7 +186,7 @@ fn eval(mock: &Mock, host: &Arc<Mutex<HostState>>, workdir: &str, case: &Case, s
         let mut evs = Vec::new();
         for i in 0..n {
             let len = if i + 1 == n { text - (text / n) * (n - 1) } else { text / n };
-            evs.push(GEvent { message: "m".repeat(len), task: "start".into(), level: "INFO".into() });
+            evs.push(GEvent { message: "m".repeat(len), task: "start".into(), level: "INFO".into(), op: String::new(), version: String::new(), stamp: String::new() });
         }
         exact_target = Some((files.len(), target));
         files.push(evs);
@@ -183,9 +194,11 @@ fn eval(mock: &Mock, host: &Arc<Mutex<HostState>>, workdir: &str, case: &Case, s
     for (fi, f) in files.iter().enumerate() {
         let mut arr = Vec::new();
         for (ei, e) in f.iter().enumerate() {
-            let marker = format!("marker-f{}-e{}", fi, ei);
+            let marker = format!("marker-f{}-e{}{}", fi, ei, e.op);
             originals.insert(marker.clone(), (e.clone(), fi));
-            arr.push(serde_json::json!({"EventLevel": e.level, "Message": e.message, "Version": "9.9.9", "TaskName": e.task, "EventPid": "4242", "EventTid": "7", "OperationId": marker, "TimeStamp": "2026-01-01T00:00:00.000"}));
+            let version = if e.version.is_empty() { "9.9.9".to_string() } else { e.version.clone() };
+            let stamp = if e.stamp.is_empty() { "2026-01-01T00:00:00.000".to_string() } else { e.stamp.clone() };
+            arr.push(serde_json::json!({"EventLevel": e.level, "Message": e.message, "Version": version, "TaskName": e.task, "EventPid": "4242", "EventTid": "7", "OperationId": marker, "TimeStamp": stamp}));
         }
         std::fs::write(dir.join(format!("{:020}.json", 1000 + fi)), serde_json::to_vec(&arr).unwrap()).unwrap();
     }
@@ -309,6 +322,13 @@ fn eval(mock: &Mock, host: &Arc<Mutex<HostState>>, workdir: &str, case: &Case, s
             }
             if p.get("TaskName") != Some(&orig.task) {
                 return Outcome::fail("telemetry:event-text-not-delivered-as-data", format!("POST {} event {}: task name {:?} arrived as {:?}", pi, marker, orig.task, p.get("TaskName")));
+            }
+            let version = if orig.version.is_empty() { "9.9.9".to_string() } else { orig.version.clone() };
+            let stamp = if orig.stamp.is_empty() { "2026-01-01T00:00:00.000".to_string() } else { orig.stamp.clone() };
+            for (param, want) in [("GAVersion", &version), ("OpcodeName", &stamp), ("Context2", &stamp), ("CapabilityUsed", &orig.level)] {
+                if p.get(param) != Some(want) {
+                    return Outcome::fail("telemetry:event-text-not-delivered-as-data", format!("POST {} event {}: {} {:?} arrived as {:?}", pi, marker, param, want, p.get(param)));
+                }
             }
             match body_of_marker.get(&marker) {
                 Some(prev) if posts[*prev].0 != *body => {
@@ -449,7 +469,7 @@ fn main() {
     let _ = std::fs::create_dir_all(&workdir);
     // measure the fixed sizes: one and two events with empty messages
     {
-        let ev = || GEvent { message: String::new(), task: "start".into(), level: "INFO".into() };
+        let ev = || GEvent { message: String::new(), task: "start".into(), level: "INFO".into(), op: String::new(), version: String::new(), stamp: String::new() };
         let mut tmp = Stats::new();
         let mut size_of = |k: usize| -> Option<usize> {
             let c = Case { files: vec![(0..k).map(|_| ev()).collect()], faults: vec![], exact: None };
